@@ -537,3 +537,21 @@ def build(tier):
         ],
         'trusted': ['specs/C18/frame.py: the possibly-mutating-mention analysis over clang\'s AST (const-qualification of expression types, implicit NoOp casts to const, lvalue-to-rvalue conversions) and the struct layouts generated from FieldDecls'],
     }
+
+
+def replay(rp):
+    """functional select_iterator_t targets (fsel_*): the REAL select_iterator_t::loop on the real library of the working tree
+    with dataset pools of 1..4 threads; the operator must see every feature of its kind exactly once, with the values of that
+    feature, for every pool size (replay/C18_replay.cpp).  Frame targets: a write that breaks a frame has no sequential
+    failing input (it needs a second thread and a race detector); the replay file carries the verifier output only."""
+    import re
+    import replaylib
+    out = {'reproduced': False, 'runs': []}
+    if not re.match(r'fsel_|features_per_thread', rp['target']):
+        out['note'] = 'no native driver for this target: the replay file carries the verifier output only'
+        return out
+    exe = replaylib.build_with_library('replay/C18_replay.cpp', 'C18_replay')
+    rc, so, se = replaylib.run_driver(exe, [], timeout=300)
+    out['runs'].append({'exit': rc, 'output': so.strip()[-3000:]})
+    out['reproduced'] = (rc == 1)
+    return out
